@@ -102,14 +102,29 @@ func collectDeclDependencies(d Decl) []string {
 		}
 	}
 
+	// Attribute arguments are constant expressions (@align(N), @size(N),
+	// @group(G), @binding(B), @location(L), @id(I), @workgroup_size(X, Y, Z)):
+	// the constants they name must be lowered first.
+	attrDeps := func(attrs []Attribute) {
+		for i := range attrs {
+			for _, arg := range attrs[i].Args {
+				collectExprDeps(arg, nil, add)
+			}
+		}
+	}
+
 	switch d := d.(type) {
 	case *StructDecl:
 		for _, m := range d.Members {
 			collectTypeRefs(m.Type, add)
+			attrDeps(m.Attributes)
 		}
 	case *FunctionDecl:
+		attrDeps(d.Attributes)
+		attrDeps(d.ReturnAttrs)
 		for _, p := range d.Params {
 			collectTypeRefs(p.Type, add)
+			attrDeps(p.Attributes)
 		}
 		if d.ReturnType != nil {
 			collectTypeRefs(d.ReturnType, add)
@@ -123,6 +138,7 @@ func collectDeclDependencies(d Decl) []string {
 			collectBlockDeps(d.Body, locals, add)
 		}
 	case *VarDecl:
+		attrDeps(d.Attributes)
 		collectTypeRefs(d.Type, add)
 		if d.Init != nil {
 			collectExprDeps(d.Init, nil, add)
@@ -133,6 +149,7 @@ func collectDeclDependencies(d Decl) []string {
 			collectExprDeps(d.Init, nil, add)
 		}
 	case *OverrideDecl:
+		attrDeps(d.Attributes)
 		collectTypeRefs(d.Type, add)
 		if d.Init != nil {
 			collectExprDeps(d.Init, nil, add)
